@@ -23,6 +23,7 @@ RULES = {
     "C04.b": "predict-time purity: no store to self.* and no global-stream draw reachable from predict/transform/decision_function/predict_proba/score",
     "C04.c": "clone_with_fitted_parameters only installs copies (recursive clone or deepcopy), never the original object",
     "C04.e": "row independence: in predict-like methods no batch statistic (a reduction over the rows of data-dependent values: unique, sort, max/min/mean/sum without axis=1, set of labels) flows into a returned value or decides the branch producing it (emptiness tests of sub-batches and the documented balanced predictions excepted)",
+    "C04.f": "estimator classes keep the default pickled state (whole __dict__), or a custom __getstate__/__setstate__ returns/restores all of it on every path",
     "C04.d": "compiled criterion classes define or inherit __getstate__/__setstate__ and __reduce__-compatible constructors (Cython parse tree)",
 }
 
@@ -174,6 +175,22 @@ def check_c(ck, repo, rule="C04.c"):
             return fresh(x.body) and fresh(x.orelse)
         return False
 
+    # the helper copies a fitted attribute only when the fresh clone does not have it yet
+    # (`if hasattr(obj2, k): ... adjust(...)` recurses into containers and estimators only):
+    # an attribute with a fitted name created by a constructor would stay at its constructor value
+    if rule == "C04.c":
+        guarded_copy = any(isinstance(t, ast.If) and "hasattr(obj2" in src_of(t.test).replace(" ", "") for g in [fi] + [f for f in repo.all_functions.values() if f.parent is fi] for t in own_nodes(g.node))
+        if guarded_copy:
+            for ci in estimator_classes(repo):
+                init = ci.methods.get("__init__")
+                if init is None:
+                    continue
+                made = [a for a in own_nodes(init.node) if isinstance(a, ast.Attribute) and isinstance(a.ctx, ast.Store) and isinstance(a.value, ast.Name) and a.value.id == "self" and a.attr.endswith("_") and not a.attr.endswith("__") and not a.attr.startswith("_")]
+                n += 1
+                if made:
+                    ck.violated(rule, init, enclosing_stmt(made[0]), f"{ci.name}.__init__ creates the fitted attribute self.{made[0].attr}: clone() calls the constructor, so clone_with_fitted_parameters finds the attribute already there and does not copy the fitted value: the copy answers with the constructor's value")
+                else:
+                    ck.holds(rule, init, f"{ci.name}.__init__ creates no fitted attribute", "fitted attributes exist only after fit, so the helper copies all of them", nontrivial=False)
     rets = [s for s in own_nodes(fi.node) if isinstance(s, ast.Return)]
     for r in rets:
         alts = guarded_values(repo, fi, r.value, r) if r.value is not None else []
@@ -226,6 +243,45 @@ def check_d(ck, repo):
             ck.violated("C04.d", None, f"cdef class {name}", f"no __getstate__/__setstate__ along {' -> '.join(chain)}: pickling a fitted PiecewiseTreeRegressor that still references the criterion fails", file=f, function=name, line=c.line)
         if "__deepcopy__" in classes[chain[-1]][0].methods or "__deepcopy__" in methods:
             ck.holds("C04.d", None, f"cdef class {name} __deepcopy__", "deepcopy hook present (used by clone_with_fitted_parameters)", file=f, function=name, line=c.line, nontrivial=False)
+    return n
+
+
+# ------------------------------------------------------------------ C04.f
+def check_f(ck, repo):
+    """a pickle round-trip gives a model with identical outputs: an estimator
+    class that customises its pickled state must keep every attribute (the
+    default state is the whole __dict__)"""
+    from .sem import paths, ptext, RAISE
+
+    n = 0
+    for ci in estimator_classes(repo):
+        custom = [m for m in ("__getstate__", "__reduce__", "__reduce_ex__", "__setstate__", "__deepcopy__", "__copy__") if m in ci.methods]
+        n += 1
+        if not custom:
+            ck.holds("C04.f", None, f"{ci.name}: default pickling", "the pickled state is the whole __dict__", nontrivial=False, file=ci.module.relpath, function=ci.name, line=getattr(ci.node, "_orig_lineno", ci.node.lineno))
+            continue
+        for m in custom:
+            fi = ci.methods[m]
+            ok = False
+            why = ""
+            try:
+                ps = [p for p in paths(fi) if p.ret != RAISE]
+            except AnalysisError:
+                ps = []
+            if m == "__getstate__":
+                FULL = ("self.__dict__", "self.__dict__.copy()", "dict(self.__dict__)", "BaseEstimator.__getstate__(self)", "super().__getstate__()", "dict(BaseEstimator.__getstate__(self))", "dict(super().__getstate__())")
+                rets = [p.ret_text() for p in ps]
+                ok = bool(ps) and all(r in FULL for r in rets) and all(not p.stores for p in ps)
+                why = f"returns {sorted(set(rets))[:2]}"
+            elif m == "__setstate__":
+                calls_ = [[ptext(c) for c in p.calls] for p in ps]
+                st = fi.named_params[1] if len(fi.named_params) > 1 else "state"
+                ok = bool(ps) and all(cs in ([f"self.__dict__.update({st})"], [f"BaseEstimator.__setstate__(self, {st})"], [f"super().__setstate__({st})"]) and not p.stores for cs, p in zip(calls_, ps))
+                why = f"does {calls_[:1]} and stores {[sorted(p.stores) for p in ps][:1]}"
+            if ok:
+                ck.holds("C04.f", fi, f"{ci.name}.{m}", "the whole state is kept / restored")
+            else:
+                ck.violated("C04.f", fi, f"{ci.name}.{m} {why}", f"{ci.name} customises pickling ({m}) and does not keep/restore the whole __dict__ on every path: a fitted attribute can be dropped or rebuilt from something else, so the reloaded (or deep-copied) model answers differently")
     return n
 
 
@@ -302,12 +358,14 @@ def run(ck):
         ck.unknown("C04.d", None, "Cython parser", f"cannot import Cython's parser: {e}", file="-", function="-", line=0)
         nd = 0
     ck.extra["rowwise_functions"] = check_e(ck, repo)
+    ck.extra["pickling_classes"] = check_f(ck, repo)
     ck.extra["pairing_instances"] = na
     ck.extra["exemptions"] = {f"{k[0]}.{k[1]}": v for k, v in B_EXEMPT_ATTR.items()}
     ck.require_count("C04.a", 5, "piecewise return pairs x3, scatter loop, fallback; DTLR predict_proba x2, decision_path x2")
     ck.require_count("C04.b", 15, "estimator classes with predict-like methods")
     ck.require_count("C04.c", 2, "setattr sites and result constructions of clone_with_fitted_parameters")
     ck.require_count("C04.d", 2, "criterion classes")
+    ck.require_count("C04.f", 30, "estimator classes (default pickling)")
     ck.require_count("C04.e", 40, "predict-reachable functions with a data parameter")
 
 
@@ -334,6 +392,8 @@ WITNESSES = [
     {"name": "interval-predict-centred-on-batch", "file": "mlinsights/mlmodel/interval_regressor.py", "rule": "C04.e", "old": "        preds = self.predict_all(X)\n        return preds.mean(axis=1)\n", "new": "        preds = self.predict_all(X)\n        preds = preds - preds.mean(axis=0)\n        return preds.mean(axis=1)\n"},
     {"name": "interval-sorted-over-rows", "file": "mlinsights/mlmodel/interval_regressor.py", "rule": "C04.e", "old": "        for i in range(preds.shape[0]):\n            preds[i, :] = numpy.sort(preds[i, :])\n        return preds\n", "new": "        preds = numpy.sort(preds, axis=0)\n        return preds\n"},
     {"name": "interval-shortcut-on-batch-max", "file": "mlinsights/mlmodel/interval_regressor.py", "rule": "C04.e", "old": "        preds = self.predict_all(X)\n        return preds.mean(axis=1)\n", "new": "        preds = self.predict_all(X)\n        if preds.max() <= 0:\n            return preds[:, 0]\n        return preds.mean(axis=1)\n"},
+    {"name": "ckm-init-creates-fitted-attr", "file": "mlinsights/mlmodel/kmeans_constraint.py", "rule": "C04.c", "old": "        self._n_threads = 1\n", "new": "        self._n_threads = 1\n        self.weights_ = None\n"},
+    {"name": "transfer-pickle-drops-copy", "file": "mlinsights/mlmodel/transfer_transformer.py", "rule": "C04.f", "old": "    def transform(self, X):", "new": "    def __getstate__(self):\n        state = dict(self.__dict__)\n        state[\"estimator_\"] = None\n        return state\n\n    def transform(self, X):"},
     {"name": "criterion-no-getstate", "file": _CY, "rule": "C04.d", "old": "    def __getstate__(self):", "new": "    def _getstate_disabled(self):"},
 ]
 TWINS = [
